@@ -86,3 +86,7 @@ Proof.
   - apply tree_next_ret in Ha as [[-> Hi]|[-> Hi]]; simpl; auto.
   - apply tree_prev_ret in Ha as [[-> Hi]|[-> Hi]]; simpl; auto.
 Qed.
+
+(* a copy is indistinguishable from the original *)
+Lemma tree_copy_id t : tree_copy t = t.
+Proof. destruct t as [i l r [pi pl pr pd a b c d e f] pa ed ne tr si]. reflexivity. Qed.
